@@ -41,7 +41,7 @@ def modelled(kname):
 def build():
     """Rocq development of C13 (full .vo build) + extraction + kernelrun"""
     os.makedirs(B13, exist_ok=True)
-    r = C.sh('cd %s && ([ -f Makefile.coq ] || coq_makefile -f _CoqProject -o Makefile.coq) >/dev/null '
+    r = C.sh('cd %s && coq_makefile -f _CoqProject -o Makefile.coq >/dev/null '
              '&& timeout 3000 make -f Makefile.coq -j8 2>&1 | tail -30' % COQ13)
     if r.returncode != 0 or 'Error' in r.stdout:
         raise C.BuildError('Rocq build of c13/coq failed:\n' + r.stdout[-3000:])
